@@ -26,6 +26,14 @@ CHECKS = {
    technique="deterministic simulation: simulator-owned random source of the fading process plus injected csi/noise; exact y=h*x+n identity, exact block-constancy with injected zero noise, and moment/correlation tests with analytic variances (1e-9 per-run false-alarm bound)",
    text="Seeded realisations of Rayleigh/Rician/log-normal flat fading (generic and convenience classes) over coherence times incl. non-divisors, real/complex, 1-D..4-D shapes. Structure is exact on every case; E|h|^2, K-factor, independence across blocks/items and noise calibration against the faded signal are decided up to the stated error probability at ~1e6 blocks.",
    note="Trusted: torch's generator is the only random source; csi/noise supplied in the channel's (batch, flattened sequence) layout; no normalisation asserted for log-normal."),
+ "C09": dict(engine="linksim", design="§4",
+   technique="deterministic simulation with fault injection on the link: the real ChannelCodeModel (encoder, modulator, constraint, demodulator, decoder) with a simulator-owned channel that places in-budget bit flips / symbol displacements from an explicit, replayable plan, plus the library's own BSC/AWGN under a seeded generator with post-hoc budget classification; oracle: delivered message == sent message on every in-budget run",
+   text="Seeded search over (code, decoder, modulation, layout, message, fault plan) with the harness-placed damage at weight exactly t and displacement up to 0.98*d_min/2, hard and soft paths. Evidence over the sampled fault sequences; small codes see every weight-<=t pattern only in the thorough tier and only as measured in the evidence.",
+   note="Trusted: advertised d of the code object, harness d_min from the published constellation, TapModulator/TapDemodulator/FaultChannel harness stages, the narrow relaxations stated in DESIGN §4.4 (multi-block rows may be rejected; over-budget random realisations assert nothing)."),
+ "C02": dict(engine="linksim", design="§4",
+   technique="deterministic simulation with fault injection: the modulation-free configuration of the link simulator — the simulator owns the channel between encoder and hard decoder and injects exactly-w bit flips (w <= advertised t) or arbitrary received words from an explicit, replayable plan; strict oracle for clause 1, deliberately narrowed oracle (distance of the answer = minimum distance to the codebook) for clause 2",
+   text="Seeded search over (code, hard decoder, messages, flip patterns / received words) with a deterministic walk over messages and patterns for codes with n <= 15. Sampling, not the exhaustive sweep the quantifier text mentions; the evidence reports how many distinct patterns per small code the batch visited.",
+   note="Trusted: advertised d; reference codebook enumerated by encoding all 2^k messages with the real encoder (k <= 12); one block per row."),
 }
 
 NOT_APPLICABLE = {
